@@ -156,11 +156,49 @@ impl BigUint {
 //@ stub u_conv/to_u64
 }
 
-//@ assume __root_guess : rule R24: stands for the floating-point initial guess of sqrt/cbrt/nth_root; assumed to return some positive canonical value without panicking (the result of the root functions is proved for every such value)
+//@ assume __float_guess : rule R24b: stands for the floating-point arm of the initial guess of sqrt/cbrt/nth_root (self.to_f64(), is_finite, f64 sqrt/cbrt/ln/exp, BigUint::from_f64(..).unwrap()); assumed to return either some positive canonical value without panicking, or None only for operands of at least 2^1023 (to_f64 of a smaller value is finite); the result of the root functions is proved for every such value
 #[verifier::external_body]
-fn __root_guess(x: &BigUint) -> (g: BigUint)
-    ensures g.wf(), g.v() >= 1
+fn __float_guess(x: &BigUint) -> (r: Option<BigUint>)
+    ensures match r { Some(g) => g.wf() && g.v() >= 1, None => x.v() >= p2(1023) }
 { unimplemented!() }
+
+//@ assume __u64_div_ceil : num_integer::Integer::div_ceil on u64 (external crate, rule R3dc): ceiling of the quotient
+#[verifier::external_body]
+fn __u64_div_ceil(a: u64, b: u64) -> (r: u64)
+    requires b != 0
+    ensures (r as nat) * (b as nat) >= a as nat, (r as nat) * (b as nat) < a as nat + b as nat
+{ unimplemented!() }
+
+impl ShrSpecImpl<u64> for &BigUint {
+    open spec fn obeys_shr_spec() -> bool { false }
+    open spec fn shr_req(self, rhs: u64) -> bool { self.wf() }
+    open spec fn shr_spec(self, rhs: u64) -> BigUint { arbitrary() }
+}
+impl Shr<u64> for &BigUint {
+    type Output = BigUint;
+//@ stub u_shiftops/shr_ref_u64
+}
+
+/// the scaled-down operand of the fallback guess is positive and smaller than the operand
+pub proof fn lemma_scaled(v: nat, bits: nat, scale: nat)
+    requires bits >= 1, v >= p2((bits - 1) as nat), 1 <= scale <= bits - 1
+    ensures 1 <= v / p2(scale) < v, p2(scale) >= 2
+{
+    vstd::arithmetic::power2::lemma_pow2_pos(scale);
+    vstd::arithmetic::power2::lemma2_to64();
+    if scale < bits - 1 { vstd::arithmetic::power2::lemma_pow2_strictly_increases(scale, (bits - 1) as nat); }
+    if 1 < scale { vstd::arithmetic::power2::lemma_pow2_strictly_increases(1, scale); }
+    vstd::arithmetic::div_mod::lemma_div_non_zero(v as int, p2(scale) as int);
+    vstd::arithmetic::div_mod::lemma_div_decreases(v as int, p2(scale) as int);
+}
+
+/// the fallback arm is reached only with at least 1024 significant bits
+pub proof fn lemma_big_bits(v: nat, bits: nat)
+    requires v >= p2(1023), v < p2(bits)
+    ensures bits >= 1024
+{
+    if bits < 1023 { vstd::arithmetic::power2::lemma_pow2_strictly_increases(bits, 1023); }
+}
 
 //@ assume __u64_sqrt : num_integer::Roots::sqrt on u64 (external crate): the floor square root (rule R3u2)
 #[verifier::external_body]
@@ -170,11 +208,12 @@ fn __u64_sqrt(x: u64) -> (r: u64)
 
 impl BigUint {
     // contract-only re-homing of `impl Roots for BigUint` (num_integer::Roots is an external trait)
-//@ extract src/biguint.rs :: impl Roots for BigUint :: fn sqrt rules=R0,R24,R3u2 ufcs=self/s,s+q props=C11,C14
+//@ extract src/biguint.rs :: impl Roots for BigUint :: fn sqrt rules=R0,R24b,R24c,R3rs,R3u2 ufcs=self/s,s+q props=C11,C14
     fn sqrt(&self) -> /*+*/(res: /*-*/Self/*+*/)/*-*/
 //+{
         requires self.wf()
         ensures res.wf(), is_root(self.v(), 2, res.v())
+        decreases self.v()
 //+}
     {
 //+{
@@ -198,7 +237,27 @@ impl BigUint {
         let bits = self.bits();
         let max_bits = bits / 2 + 1;
 
-        let guess = __root_guess(self);
+        let guess = match __float_guess(self) {
+            Some(g__) => g__,
+            None => {
+                // Try to guess by scaling down such that it does fit in `f64`.
+                // With some (x * 2²ᵏ), its sqrt ≈ (√x * 2ᵏ)
+//+{
+                proof { lemma_big_bits(a, bits as nat); axiom_vec_u64_len(&self.data); lemma_nbits_range(self.data@[self.data@.len() - 1]); }
+//+}
+                let extra_bits = bits - (1024u64 - 1);
+                let root_scale = (extra_bits + 1) / 2;
+                let scale = root_scale * 2;
+//+{
+                proof {
+                    lemma_scaled(a, bits as nat, scale as nat);
+                    vstd::arithmetic::power2::lemma_pow2_pos(root_scale as nat);
+                    assert forall|x: nat, y: nat| x >= 1 && y >= 1 implies #[trigger] (x * y) >= 1 by { assert(x * y >= 1) by (nonlinear_arith) requires x >= 1, y >= 1; }
+                }
+//+}
+                Shl::shl(Shr::shr(self, scale).sqrt(), root_scale)
+            }
+        };
 //+{
         proof { lemma_root_exists(a, 2); }
         let ghost r = choose|r: nat| is_root(a, 2, r);
@@ -305,11 +364,12 @@ fn __u64_nth_root(x: u64, n: u32) -> (r: u64)
 { unimplemented!() }
 
 impl BigUint {
-//@ extract src/biguint.rs :: impl Roots for BigUint :: fn cbrt rules=R0,R24,R3u3,R3v,R3w props=C11,C14
+//@ extract src/biguint.rs :: impl Roots for BigUint :: fn cbrt rules=R0,R24b,R24c,R3rs,R3u3,R3v,R3w props=C11,C14
     fn cbrt(&self) -> /*+*/(res: /*-*/Self/*+*/)/*-*/
 //+{
         requires self.wf()
         ensures res.wf(), is_root(self.v(), 3, res.v())
+        decreases self.v()
 //+}
     {
 //+{
@@ -333,7 +393,27 @@ impl BigUint {
         let bits = self.bits();
         let max_bits = bits / 3 + 1;
 
-        let guess = __root_guess(self);
+        let guess = match __float_guess(self) {
+            Some(g__) => g__,
+            None => {
+                // Try to guess by scaling down such that it does fit in `f64`.
+                // With some (x * 2³ᵏ), its cbrt ≈ (∛x * 2ᵏ)
+//+{
+                proof { lemma_big_bits(a, bits as nat); axiom_vec_u64_len(&self.data); lemma_nbits_range(self.data@[self.data@.len() - 1]); }
+//+}
+                let extra_bits = bits - (1024u64 - 1);
+                let root_scale = (extra_bits + 2) / 3;
+                let scale = root_scale * 3;
+//+{
+                proof {
+                    lemma_scaled(a, bits as nat, scale as nat);
+                    vstd::arithmetic::power2::lemma_pow2_pos(root_scale as nat);
+                    assert forall|x: nat, y: nat| x >= 1 && y >= 1 implies #[trigger] (x * y) >= 1 by { assert(x * y >= 1) by (nonlinear_arith) requires x >= 1, y >= 1; }
+                }
+//+}
+                Shl::shl(Shr::shr(self, scale).cbrt(), root_scale)
+            }
+        };
 //+{
         proof { lemma_root_exists(a, 3); }
         let ghost r = choose|r: nat| is_root(a, 3, r);
@@ -381,11 +461,12 @@ impl BigUint {
     }
 //@ end
 
-//@ extract src/biguint.rs :: impl Roots for BigUint :: fn nth_root rules=R0,R11,R24,R3un,R3x,R3y props=C11,C14
+//@ extract src/biguint.rs :: impl Roots for BigUint :: fn nth_root rules=R0,R11,R24b,R24c,R3rs,R3os,R3dc,R3un,R3x,R3y props=C11,C14
     fn nth_root(&self, n: u32) -> /*+*/(res: /*-*/Self/*+*/)/*-*/
 //+{
         requires self.wf(), !mp() ==> n >= 1
         ensures mp() ==> n >= 1, res.wf(), is_root(self.v(), n as nat, res.v())
+        decreases self.v()
 //+}
     {
         __assert(n > 0);
@@ -444,7 +525,45 @@ impl BigUint {
 //+}
         let max_bits = bits / n64 + 1;
 
-        let guess = __root_guess(self);
+        let guess = match __float_guess(self) {
+            Some(g__) => g__,
+            None => {
+                // Try to guess by scaling down such that it does fit in `f64`.
+                // With some (x * 2ⁿᵏ), its nth root ≈ (ⁿ√x * 2ᵏ)
+//+{
+                proof { lemma_big_bits(a, bits as nat); }
+//+}
+                let extra_bits = bits - (1024u64 - 1);
+                let root_scale = __u64_div_ceil(extra_bits, n64);
+//+{
+                proof {
+                    assert((root_scale as nat) * (n64 as nat) < 0x1_0000_0000_0000_0000) by (nonlinear_arith)
+                        requires (root_scale as nat) * (n64 as nat) < extra_bits as nat + n64 as nat, extra_bits < 0x8000_0000_0000_0000u64, n64 < 0x1_0000_0000u64;
+                    assert(root_scale >= 1) by (nonlinear_arith) requires (root_scale as nat) * (n64 as nat) >= extra_bits as nat, extra_bits >= 1;
+                    assert((root_scale as nat) * (n64 as nat) >= 1) by (nonlinear_arith) requires root_scale >= 1, n64 >= 1;
+                }
+//+}
+                let scale = root_scale * n64;
+                if scale < bits && bits - scale > n64 {
+//+{
+                    proof {
+                        lemma_scaled(a, bits as nat, scale as nat);
+                        vstd::arithmetic::power2::lemma_pow2_pos(root_scale as nat);
+                        assert forall|x: nat, y: nat| x >= 1 && y >= 1 implies #[trigger] (x * y) >= 1 by { assert(x * y >= 1) by (nonlinear_arith) requires x >= 1, y >= 1; }
+                    }
+//+}
+                    Shl::shl(Shr::shr(self, scale).nth_root(n), root_scale)
+                } else {
+//+{
+                    proof {
+                        vstd::arithmetic::power2::lemma_pow2_pos(max_bits as nat);
+                        assert(1 * p2(max_bits as nat) == p2(max_bits as nat)) by (nonlinear_arith);
+                    }
+//+}
+                    Shl::shl(BigUint::one(), max_bits)
+                }
+            }
+        };
 //+{
         proof { lemma_root_exists(a, n as nat); }
         let ghost r = choose|r: nat| is_root(a, n as nat, r);
